@@ -98,6 +98,34 @@ def run(ctx):
     ctx.require(len(ops) >= 3, 'R1', 'operations on the on_exit vector not found (%d)' % len(ops))
 
     # ---- R2 join -----------------------------------------------------------------------------------------------------------------------------
+    # the boot record (ProcessArg) shares its on_exit list with the actors created from it: restart() and every reboot of the host read it again
+    PAEXIT = K + 'actor::ProcessArg::on_exit'
+    stolen = []
+    nread = 0
+    def walk_r(fn, node, depth=0):
+        # the sub-expressions of an element are hoisted into earlier elements and referenced by {'k': 'R', 'r': index}
+        for x in ex.walk(node):
+            yield x
+            if x.get('k') == 'R' and depth < 4 and isinstance(x.get('r'), int) and x['r'] < len(fn['elems']):
+                for y in walk_r(fn, fn['elems'][x['r']]['x'], depth + 1):
+                    yield y
+    for fn in P.fns.values():
+        for el in fn.get('elems') or ():
+            for n in ex.walk(el['x']):
+                if n.get('k') != 'Call':
+                    continue
+                q = (n.get('c') or {}).get('q', '')
+                base = q.split('<')[0]
+                mentions = any(x.get('k') == 'Mem' and (x.get('d') or {}).get('n') == PAEXIT for a in (n.get('a') or ()) for x in walk_r(fn, a)) or \
+                    (n.get('obj') is not None and any(x.get('k') == 'Mem' and (x.get('d') or {}).get('n') == PAEXIT for x in walk_r(fn, n['obj'])))
+                if not mentions:
+                    continue
+                nread += 1
+                if base in ('std::move', 'std::swap', 'std::exchange') or q.rsplit('::', 1)[-1] in ('clear', 'swap', 'pop_back', 'erase', 'resize'):
+                    stolen.append((fn, n.get('l') or el.get('l'), base or q))
+    ctx.check(not stolen, 'R1', 'the on_exit list of a boot record (ProcessArg) is only copied from, never moved from or emptied', where(stolen[0][0], stolen[0][1]) if stolen else 'src/kernel/actor',
+              ('%s on ProcessArg::on_exit in %s: the list is shared with the actor being restarted and with the boot record used at every reboot; emptying it loses their callbacks '
+               '(no on_exit run, joiners not woken)' % (stolen[0][2], stolen[0][0]['q'].replace(K, ''))) if stolen else '%d use(s), all reads' % nread, key='R1|ProcessArg::on_exit|read-only')
     ctx.rule('R2', 'join: the sleep of `timeout` seconds is finished FINISHED at once when the target is dying, otherwise by a callback appended to the target\'s on_exit', 3)
     jf = P.fn(AC + '::join')
     v = A.view(jf)
